@@ -535,6 +535,12 @@ class ExprMixin:
             return r
         if obj.kind == 'rows':
             return self.row_ref(obj, k, st)
+        if obj.kind == 'rowsflat':
+            # a point of a multivariate series: pointer to its first value inside the flat storage
+            for oid_, o_ in st.heap.items():
+                if o_ is obj:
+                    return Ptr(oid_, zint(k) * obj.nd)
+            raise Unsupported('row of a detached multivariate series')
         return z3.Select(obj.arr, zint(k))
 
     def row_ref(self, obj, k, st):
